@@ -390,3 +390,22 @@ def run(prog: Program, ctx: Ctx) -> None:  # noqa: PLR0912,PLR0915
     # ------------------------------------------------------------------ R14 recorded values and defaults are text
     inspected_values_table(prog, ctx, "R14")
 
+    # ------------------------------------------------------------------ R15 the static side finds definitions in every kind of block
+    # (a compat fallback defined in an `except` handler or an `else` branch exists at run time when that branch runs: the inspector reports it)
+    from sa.tables import extraction
+
+    ctx.rule("R15", "the visitor finds functions, classes and assignments in every block context (if / else, try / except / else / finally, for, with, "
+                    "guards): one member per bound name, as the extraction table of C01 states it")
+    ex15 = extraction.Extraction(prog)
+    gm15 = prog.function("_griffe.agents.visitor.Visitor.get_module")
+    n15 = 0
+    for label15, src15 in extraction.corpus(False):
+        parts15 = label15.split("|")
+        if parts15[0] != "module" or len(parts15) < 3 or parts15[2] not in ("function", "class", "assignment"):
+            continue
+        res15 = ex15.visit(src15)
+        problems15 = [res15] if isinstance(res15, str) else [p_ for p_ in extraction.compare(src15, extraction.reference(src15), *res15) if p_.startswith("members differ")]
+        n15 += 1
+        ctx.ob("R15", f"found|{label15}", not problems15, f"{label15}: " + (problems15[0] if problems15 else "the member is found"), where(gm15))
+    ctx.expect_min("R15", n15, 50)
+
